@@ -805,6 +805,17 @@ func (in *Interp) callBuiltinValue(caller *frame, f FuncV, args []Value, pos tok
 		}
 		return p
 	}
+	if f.Builtin == "lenientmethod" {
+		sig := f.Recv.(*types.Signature)
+		res := sig.Results()
+		switch res.Len() {
+		case 0:
+			return nil
+		case 1:
+			return in.zero(res.At(0).Type())
+		}
+		return in.zero(res)
+	}
 	if h, ok := modelMethods[f.Builtin]; ok {
 		return h(in, caller, nil, args, pos)
 	}
